@@ -431,6 +431,167 @@ fn check(h: &Hist, ctx: &mut Ctx) -> CaseResult {
     Ok(())
 }
 
+// ---------------------------------------------------------------------------------------------
+// Section "identical-messages": address-less logs drawn from a tiny pool, so that the same
+// message (text, level, source) is sent many times, also back-to-back and from several threads.
+// Messages cannot be told apart, so the oracle counts: per distinct message,
+//   #sent-before-collect (observed)  <=  #returned  <=  #sent in total,
+// with equality to #sent when every thread was joined; with one global recorded order and all
+// threads joined the returned sequence must equal the sent sequence.
+
+const TEXTS: [&str; 3] = ["Timeout while computing the fixpoint", "Unexpected stack register value", "Call target not found"];
+
+fn decode_identical(t: &mut Tape) -> (Hist, Vec<Vec<(Kind, LogThreadMsg)>>) {
+    let sequential = t.flag();
+    let n = 1 + t.below(4);
+    let mut threads = vec![];
+    let mut joined = vec![];
+    let mut msgs = vec![];
+    for _ in 0..n {
+        joined.push(!t.prob(70));
+        let nact = t.below(25);
+        let mut acts = vec![];
+        let mut mine = vec![];
+        let mut last: Option<LogMessage> = None;
+        for _ in 0..nact {
+            let k = t.byte();
+            if k < 200 {
+                // 0..79: repeat the previous message of this thread; otherwise draw from the pool
+                let m = match (&last, k < 80) {
+                    (Some(m), true) => m.clone(),
+                    _ => LogMessage {
+                        text: TEXTS[t.below(3)].to_string(),
+                        level: if t.below(2) == 0 { LogLevel::Error } else { LogLevel::Debug },
+                        location: None,
+                        source: if t.below(2) == 0 { None } else { Some("Pointer Inference".to_string()) },
+                    },
+                };
+                last = Some(m.clone());
+                acts.push(Act::Send { kind: Kind::Log, level: 0, source: 0 });
+                mine.push((Kind::Log, LogThreadMsg::Log(m)));
+            } else if k < 240 {
+                acts.push(Act::Yield);
+            } else {
+                acts.push(Act::SleepUs(SLEEPS[t.below(3)]));
+            }
+        }
+        threads.push(acts);
+        msgs.push(mine);
+    }
+    let pre_collect = if t.flag() { Act::SleepUs(300) } else { Act::Yield };
+    (Hist { sequential, threads, joined, pre_collect }, msgs)
+}
+
+fn log_of(m: &LogThreadMsg) -> &LogMessage {
+    match m {
+        LogThreadMsg::Log(l) => l,
+        _ => unreachable!(),
+    }
+}
+
+fn show_identical(h: &Hist, msgs: &[Vec<(Kind, LogThreadMsg)>]) -> String {
+    let key = |l: &LogMessage| format!("{}{}{}", TEXTS.iter().position(|t| *t == l.text).unwrap(), if l.level == LogLevel::Error { 'E' } else { 'D' }, if l.source.is_some() { 'p' } else { '-' });
+    let mut s = format!("sequential={} joined={:?} pre_collect={:?}\n", h.sequential, h.joined, h.pre_collect);
+    for (ti, acts) in h.threads.iter().enumerate() {
+        let mut k = 0;
+        let mut line = vec![];
+        for a in acts {
+            match a {
+                Act::Send { .. } => {
+                    line.push(key(log_of(&msgs[ti][k].1)));
+                    k += 1;
+                }
+                Act::Yield => line.push("y".into()),
+                Act::SleepUs(us) => line.push(format!("sleep{}", us)),
+            }
+        }
+        s.push_str(&format!("  thread {}: {}\n", ti, line.join(" ")));
+    }
+    s
+}
+
+fn check_identical(h: &Hist, msgs: &[Vec<(Kind, LogThreadMsg)>], ctx: &mut Ctx) -> CaseResult {
+    let n = h.threads.len();
+    let all_joined = h.joined.iter().all(|j| *j);
+    let back_to_back = msgs.iter().any(|m| m.windows(2).any(|w| w[0].1 == w[1].1));
+    let mut across = false;
+    for a in 0..n {
+        for b in a + 1..n {
+            if msgs[a].iter().any(|x| msgs[b].iter().any(|y| x.1 == y.1)) {
+                across = true;
+            }
+        }
+    }
+    if back_to_back {
+        ctx.label("same-message-back-to-back-in-one-thread");
+    }
+    if across {
+        ctx.label("same-message-from-two-threads");
+    }
+    ctx.label(if all_joined { "all-threads-joined-before-collect" } else { "some-thread-still-sending-during-collect" });
+    ctx.label(if h.sequential { "sequential-mode" } else { "free-running-mode" });
+    if back_to_back || across {
+        ctx.label("nontrivial");
+        ctx.nontrivial(fnv(show_identical(h, msgs).as_bytes()));
+    }
+    ctx.sample(|| show_identical(h, msgs));
+    let out = match execute(h, msgs) {
+        Ok(o) => o,
+        Err(f) => return ctx.report(format!("C25:{}", f.signature), f.detail),
+    };
+    if !out.cwes.is_empty() {
+        return ctx.report("C25:fabricated-message", format!("warnings returned although none was sent: {:?}", out.cwes));
+    }
+    let info = || format!("history:\n{}completed-before-collect={:?}\nreturned ({}): {:?}", show_identical(h, msgs), out.completed, out.logs.len(), out.logs.iter().map(|l| (l.text.clone(), l.level.clone(), l.source.clone())).collect::<Vec<_>>());
+    // counts per distinct message
+    let mut sent: Vec<(&LogMessage, usize, usize)> = vec![]; // message, sent in total, surely sent before collect
+    for ti in 0..n {
+        for (k, (_, m)) in msgs[ti].iter().enumerate() {
+            let l = log_of(m);
+            let sure = k < out.completed[ti];
+            match sent.iter_mut().find(|e| e.0 == l) {
+                Some(e) => {
+                    e.1 += 1;
+                    e.2 += sure as usize;
+                }
+                None => sent.push((l, 1, sure as usize)),
+            }
+        }
+    }
+    for l in &out.logs {
+        if !sent.iter().any(|e| e.0 == l) {
+            return ctx.report("C25:fabricated-message", format!("returned log {:?} was never sent; {}", l, info()));
+        }
+    }
+    for (l, total, sure) in &sent {
+        let got = out.logs.iter().filter(|x| x == l).count();
+        if got > *total {
+            return ctx.report("C25:duplicate-message", format!("message {:?} sent {} times but returned {} times; {}", l, total, got, info()));
+        }
+        if got < *sure {
+            let which = if all_joined { "joined-thread" } else { "completed-send" };
+            return ctx.report(format!("C25:log-lost:identical-messages:{}", which), format!("message {:?}: {} sends had completed before collect() was requested, only {} returned; {}", l, sure, got, info()));
+        }
+    }
+    if all_joined {
+        // exact sequence where the harness knows it: one thread, or one recorded global order
+        let expected: Option<Vec<&LogMessage>> = if h.sequential {
+            Some(out.order.iter().map(|(ti, k)| log_of(&msgs[*ti][*k].1)).collect())
+        } else if msgs.iter().filter(|m| !m.is_empty()).count() <= 1 {
+            Some(msgs.iter().flatten().map(|(_, m)| log_of(m)).collect())
+        } else {
+            None
+        };
+        if let Some(exp) = expected {
+            let got: Vec<&LogMessage> = out.logs.iter().collect();
+            if exp != got {
+                return ctx.report("C25:log-order:identical-messages", format!("returned sequence differs from the sent sequence; {}", info()));
+            }
+        }
+    }
+    Ok(())
+}
+
 pub fn run(eng: &mut Engine) {
     eng.rule = "histories of 1..4 sender threads x 0..30 actions (Log / Log with location from 5 addresses / Cwe with first address from 5 addresses / yield / sleep <= 2 ms), random subset joined before collect(), sequential (mutex-recorded global order) or free-running. Non-trivial (distinct by history): >= 2 threads, an address hit by >= 2 warnings, and a sleep >= 200 us before a later send (channel runs empty before the last send)".into();
     eng.assumptions = vec![
@@ -489,6 +650,30 @@ pub fn run(eng: &mut Engine) {
         },
         |tape| format!("{:?}", decode(&mut Tape::new(tape))),
     );
+    let cases = eng.tier.pick(4_000u64, 80_000u64);
+    eng.random(
+        "identical-messages",
+        RandomSpec { cases, max_tape: 160 },
+        |tape, ctx| {
+            let key = fnv(tape) ^ 0x1d;
+            if let Some(f) = MEMO.with(|m| m.borrow().get(&key).cloned()) {
+                return Err(f);
+            }
+            let (h, msgs) = decode_identical(&mut Tape::new(tape));
+            let r = check_identical(&h, &msgs, ctx);
+            if let Err(f) = &r {
+                MEMO.with(|m| m.borrow_mut().insert(key, f.clone()));
+            }
+            r
+        },
+        |tape| {
+            let (h, msgs) = decode_identical(&mut Tape::new(tape));
+            show_identical(&h, &msgs)
+        },
+    );
+    eng.require_fraction("identical-messages", "same-message-back-to-back-in-one-thread", 0.30);
+    eng.require_fraction("identical-messages", "same-message-from-two-threads", 0.30);
+    eng.require_fraction("identical-messages", "all-threads-joined-before-collect", 0.10);
     eng.require_fraction("histories", "nontrivial", 0.30);
     eng.require_fraction("histories", "sequential-mode", 0.30);
     eng.require_fraction("histories", "free-running-mode", 0.30);
